@@ -40,9 +40,14 @@ type fallbackGenerator struct {
 	counter uint64
 }
 
+// fallbackGenerators numbers the fallback generators of this program: two generators created within the
+// same clock reading would otherwise share their prefix and hand out identical ids.
+var fallbackGenerators uint64
+
 func NewFallbackGenerator() IGenerator {
 	return &fallbackGenerator{
-		prefix: strconv.FormatInt(time.Now().UnixNano(), 36),
+		prefix: strconv.FormatInt(time.Now().UnixNano(), 36) + "." +
+			strconv.FormatUint(atomic.AddUint64(&fallbackGenerators, 1), 36),
 	}
 }
 
